@@ -436,8 +436,10 @@ func runC03(cfg Config) {
 	// the casync protocol client on arbitrary bytes from the server side (protosession.go; theorem session_never_wrong_chunk)
 	runProtoSessions(cfg, rep, m, rng, 0, cfg.N(150, 6000))
 	runRemoteStoresRead(cfg, rep, m, rng)
+	runGCSRead(cfg, rep, m, rng)
 	runC03Consumers(cfg, rep, rng)
 	c03Held(cfg, rep, rng, s3f, sshWrap, sshErr == nil)
+	storeOptsC03(cfg, rep, m, rng)
 	rep.Write(cfg.Out)
 }
 
